@@ -328,23 +328,35 @@ theorem decVarElems_length (env : Env) {d : Dec Val} (n : Int) (hn : 0 ≤ n) (s
     simp only [h1] at h
     exact decElems_length _ _ _ _ h
 
+theorem safe_checkDimCount (dl : Nat) : SafeDec P (checkDimCount dl) := by
+  intro s
+  unfold checkDimCount
+  split
+  · exact hP.err
+  · trivial
+
 theorem safe_decDimList (env : Env) (dl : Nat) : SafeDec P (decDimList env dl) :=
-  safe_bind (safe_request env dl) fun _ => safe_bind (safe_decDims dl) fun _ => safe_pure _
+  safe_bind (safe_checkDimCount dl) fun _ =>
+    safe_bind (safe_request env dl) fun _ => safe_bind (safe_decDims dl) fun _ => safe_pure _
 
 theorem decDimList_spec (env : Env) (dl : Nat) (s s' : St) (r : Option (List Nat)) (h : decDimList env dl s = .ok r s') :
     ∃ ds, r = some ds ∧ ds.length = dl ∧ ∀ d ∈ ds, 1 ≤ d := by
   unfold decDimList at h
   simp only [Dec.bind_apply] at h
-  cases h1 : request env dl s with
-  | fail e => simp [h1] at h
-  | ok u s1 =>
-    simp only [h1] at h
-    cases h2 : decDims dl s1 with
-    | fail e => simp [h2] at h
-    | ok ds s2 =>
-      simp only [h2, Dec.pure_apply] at h
-      cases h
-      exact ⟨ds, rfl, decDims_spec dl s1 _ ds h2⟩
+  cases h0 : checkDimCount dl s with
+  | fail e => simp [h0] at h
+  | ok u0 s0 =>
+    simp only [h0] at h
+    cases h1 : request env dl s0 with
+    | fail e => simp [h1] at h
+    | ok u s1 =>
+      simp only [h1] at h
+      cases h2 : decDims dl s1 with
+      | fail e => simp [h2] at h
+      | ok ds s2 =>
+        simp only [h2, Dec.pure_apply] at h
+        cases h
+        exact ⟨ds, rfl, decDims_spec dl s1 _ ds h2⟩
 
 /-- `Variant.Decode` is safe: `split` only runs on a dimension list whose exact product is the number of elements -/
 theorem safe_decVariant (env : Env)
